@@ -8,6 +8,7 @@ R10.4 guesser: residue-count refusal dominates the pairing loop; offsets accumul
       lengths; the per-residue groups tile 0..len in order (telescoping slices)
 R10.5 manager routing: the three per-species options are looked up under the same key as the alignment, bound to
       the matching parameters, and validated before any alignment starts
+R10.7 restraint preparation keeps no table between calls unless keyed by all inputs by value
 """
 from __future__ import annotations
 
